@@ -9,6 +9,7 @@ import (
 	"strings"
 
 	"github.com/xelaj/mtproto/telegram/deeplinks"
+	"github.com/xelaj/mtproto/zverif/freepass"
 	"github.com/xelaj/mtproto/zverif/sched"
 	"github.com/xelaj/mtproto/zverif/vr"
 )
@@ -160,6 +161,7 @@ func class(l link) string {
 
 func main() {
 	run := vr.New("C20", "exploration")
+	freepass.MaybeReplay(run)
 	run.Rule("full product scheme x host x port x path(0..3 segments, optional trailing slash) x tail, each under both orders of the template table; a case is non-trivial when it is distinct and the statement determines its result (strict sub-product) or it reaches the resolver past URL parsing")
 	run.Assume("reference resolver R7 is written from the property statement",
 		"outside the strict sub-product (escapes, Unicode, upper-case scheme/host, port without scheme, trailing slash, empty segments) only totality and order-independence are required",
@@ -273,5 +275,6 @@ func main() {
 	}
 	run.Set("reverse_order_pass", len(allLinks))
 	run.Set("alphabet", map[string]any{"schemes": schemes, "hosts": hosts, "ports": ports, "segments": segA, "max_segments": maxSeg, "tails": tails})
+	freepass.Run(run, run.ID, freepass.Rounds(run))
 	run.Finish()
 }
